@@ -8,7 +8,9 @@ import (
 )
 
 // (America/Chicago and Asia/Shanghai share the abbreviation CST with different offsets)
-var c17Zones = []string{"", "UTC", "+05:30", "-08:00", "America/New_York", "Australia/Lord_Howe", "America/Chicago", "Asia/Shanghai", "Australia/Sydney"}
+var c17Zones = []string{"", "UTC", "+05:30", "-08:00", "America/New_York", "Australia/Lord_Howe", "America/Chicago", "Asia/Shanghai", "Australia/Sydney",
+	// the extremes of the offset range, and contexts whose zone replaces an earlier one
+	"+14:00", "+12:45", "-12:00", "UTC<-+05:30", "-08:00<-UTC", "+05:30<--08:00"}
 
 func c17Strings(thorough bool) []string {
 	// (2015-10-04 / 2015-04-05: DST transitions of Australia/Sydney and Lord_Howe; 2015-11-01 / 03-08: New York)
@@ -106,7 +108,9 @@ func c17CmpGrid() []c17Val {
 		out = append(out, c17Val{t, "timestamp"})
 	}
 	for _, t := range []string{"2015-08-02T00:00:00+00:00", "2015-08-02T01:00:00+01:00", "2015-08-01T20:00:00-04:00", "2015-08-02T00:00:00-04:00", "2015-08-02T04:00:00+00:00",
-		"2015-08-02T00:00:00+05:30", "2015-08-01T18:30:00+00:00", "2015-08-02T08:00:00+00:00", "2015-08-02T00:00:00-08:00", "2015-11-01T05:30:00+00:00", "2015-11-01T06:30:00+00:00", "2015-10-03T14:00:00+00:00", "2015-10-03T13:00:00+00:00"} {
+		"2015-08-02T00:00:00+05:30", "2015-08-01T18:30:00+00:00", "2015-08-02T08:00:00+00:00", "2015-08-02T00:00:00-08:00", "2015-11-01T05:30:00+00:00", "2015-11-01T06:30:00+00:00", "2015-10-03T14:00:00+00:00", "2015-10-03T13:00:00+00:00",
+		// 10 to 14 hours before / after local midnight of 2015-08-02 in the extreme zones
+		"2015-08-01T11:00:00+00:00", "2015-08-01T10:00:00+00:00", "2015-08-01T09:59:59+00:00", "2015-08-02T12:00:00+00:00", "2015-08-02T11:59:59+00:00", "2015-08-01T12:00:00+00:00"} {
 		out = append(out, c17Val{t, "timestamp_tz"})
 	}
 	return out
@@ -238,7 +242,7 @@ func c17Triple(c Case) *Failure {
 }
 
 func runC17(r *Run) {
-	r.Rule("a grid of datetime strings (5 kinds x 9 dates incl. year/day boundaries and the DST transition days of New York and Sydney/Lord Howe x 7 times x 8-15 fractions of 0..9 digits incl. rounding carries x 7-12 offset spellings -12..+14 incl. half hours, Z, +hh and +hh:mm x T/space, plus 28 unrecognised forms) x six methods x precisions 0..7 and absent x {WithTZ, not} x context zones {none, UTC, +05:30, -08:00, America/New_York, Australia/Lord_Howe, America/Chicago, Asia/Shanghai, Australia/Sydney} against the reference civil-time model (recognised forms, resulting type, cast matrix with the tz-required error, rounding to min(p,6)); all ordered pairs of a 45-value comparison grid (incl. the Sydney/Lord Howe transition day 2015-10-04) x 6 operators x zones: reference order, antisymmetry, comparison = comparison after explicit casts to the common type, time vs date/timestamp unknown; all triples for transitivity; non-trivial = reference yields items or an error")
+	r.Rule("a grid of datetime strings (5 kinds x 9 dates incl. year/day boundaries and the DST transition days of New York and Sydney/Lord Howe x 7 times x 8-15 fractions of 0..9 digits incl. rounding carries x 7-12 offset spellings -12..+14 incl. half hours, Z, +hh and +hh:mm x T/space, plus 28 unrecognised forms) x six methods x precisions 0..7 and absent x {WithTZ, not} x context zones {none, UTC, +05:30, -08:00, America/New_York, Australia/Lord_Howe, America/Chicago, Asia/Shanghai, Australia/Sydney, +14:00, +12:45, -12:00, and contexts whose zone replaces an earlier one (UTC over +05:30, -08:00 over UTC, +05:30 over -08:00)} against the reference civil-time model (recognised forms, resulting type, cast matrix with the tz-required error, rounding to min(p,6)); all ordered pairs of a 51-value comparison grid (incl. the Sydney/Lord Howe transition day 2015-10-04) x 6 operators x zones: reference order, antisymmetry, comparison = comparison after explicit casts to the common type, time vs date/timestamp unknown; all triples for transitivity; non-trivial = reference yields items or an error")
 	strs := c17Strings(r.Thorough())
 	paths := c17Paths()
 	r.Bound("datetime_strings", len(strs))
